@@ -18,7 +18,8 @@ for sid in ids:
         continue
     try:
         demo = subprocess.run(["/venv/bin/python", os.path.join(d, "demo.py")], capture_output=True, text=True, env={**os.environ, "PYTHONPATH": "/repo/src", "JAX_PLATFORMS": "cpu"}, timeout=1200)
-        r = subprocess.run([os.path.join(ROOT, "check"), sid, "--no-evidence"], capture_output=True, text=True, cwd=ROOT, timeout=1800)
+        prop = sid.split("-")[0]
+        r = subprocess.run([os.path.join(ROOT, "check"), prop, "--no-evidence"], capture_output=True, text=True, cwd=ROOT, timeout=1800)
     finally:
         subprocess.run(["git", "-C", "/repo", "checkout", "--", "."], check=True)
     viol = re.findall(r"VIOLATION property=\S+ replay=\S*/([^/\s]+)\.json( no-failing-input-found)?", r.stdout)
@@ -26,7 +27,7 @@ for sid in ids:
     replayed = sum(1 for _, s in viol if not s)
     meta_p = os.path.join(d, "meta.json")
     meta = json.load(open(meta_p)) if os.path.exists(meta_p) else {}
-    meta["verif"] = dict(check=f"./check {sid} --tier quick", exit_code=r.returncode, caught=r.returncode == 1, failed_obligations=[v for v, _ in viol][:12],
+    meta["verif"] = dict(check=f"./check {sid.split('-')[0]} --tier quick", exit_code=r.returncode, caught=r.returncode == 1, failed_obligations=[v for v, _ in viol][:12],
                          violations_with_native_replay=replayed, demo_exit_with_patch=demo.returncode, summary=summ[-1] if summ else "",
                          confirmed="patch applied to /repo working tree (git apply), demo.py run with PYTHONPATH=/repo/src (fails with the patch; passes without, checked by tools/keep_seed.sh), quick check run, patch reverted (git checkout -- .)")
     json.dump(meta, open(meta_p, "w"), indent=1)
